@@ -325,6 +325,80 @@ void Exec::do_op3(const Op &op, bool top, Inst *S, Inst *T, bool deny) {
     }
 }
 
+// Blocking-loop mode (C03: "both driving modes"): m_ctx_loop() runs while a driver module, woken by an
+// always-readable eventfd on every loop iteration, executes the remaining top-level ops one per invocation
+// and finally requests quit, so every program terminates by construction.
+void Exec::driver_step() {
+    if (!ok()) return;
+    while (loop_next_op < P.ops.size()) {
+        const Op &op = P.ops[loop_next_op++];
+        step = (int)loop_next_op - 1;
+        if (op.code == prog::O_DISPATCH || op.code == prog::O_DRAIN || op.code == prog::O_SLEEP || op.code == prog::O_LOOP) { if (op.code == prog::O_SLEEP) continue; return; } // "let the loop turn"
+        do_op(op, false);
+        return;
+    }
+    if (!loop_quit_pending) { Op q; q.code = prog::O_QUIT; q.a = loop_final_code; do_op(q, false); }
+}
+
+void Exec::run_blocking_loop(const Op &op, size_t next_op) {
+    observe_pre();
+    if (!ctx.exists || ctx.looping) {
+        int r = m_ctx_loop();
+        if (r >= 0) fail(ctx.exists ? "C03.3" : "C07.2", "m_ctx_loop returned " + std::to_string(r) + (ctx.exists ? " on a context that is already looping" : " on a thread without context"));
+        return;
+    }
+    if (ctx.finalized) return; // the driver module could not be registered
+    // driver module
+    insts.emplace_back();
+    Inst *x = &insts.back();
+    x->id = (int)insts.size() - 1; x->ctx_gen = ctx_gen; x->slot = prog::MAX_MODS; x->name = "drv"; x->hooks = 0;
+    boxes.emplace_back(); boxes.back().inst = x;
+    m_mod_hook_t hook = {nullptr, nullptr, c_drv_evt, nullptr};
+    m_mod_t *h = nullptr;
+    if (m_mod_register("drv", &h, &hook, (m_mod_flags)0, &boxes.back()) != 0 || !h) { insts.pop_back(); fail("C01.1", "could not register the driver module"); return; }
+    x->h = h; x->raw = h; x->registered = true; x->state = M_MOD_IDLE; ctx.registered++;
+    driver = x;
+    model_enter_running(x); notify(M_PS_MOD_STARTED, x, true);
+    if (m_mod_start(h) != 0) { fail("C01.1", "could not start the driver module"); return; }
+    drv_fd = eventfd(1, EFD_NONBLOCK | EFD_CLOEXEC);
+    if (m_mod_src_register_fd(h, drv_fd, (m_src_flags)0, nullptr) != 0) { fail("C09.1", "could not register the driver's descriptor"); return; }
+    x->fds[100] = FdSrc{100, drv_fd, false, false, false, 0};
+    cls.insert("blocking-loop"); nt_loop_mode = true;
+    loop_next_op = next_op; loop_final_code = (int)(op.a & 0xff);
+    in_loop = true; in_dispatch = true; loop_quit_pending = false; loop_started_pending = true;
+    ctx.looping = true; ctx.quit = false; ctx.quit_code = 0; ctx.epoch++;
+    regdereg_in_pass = true;
+    trace("loop begin");
+    errno = 0;
+    int ret = m_ctx_loop();
+    in_loop = false; in_dispatch = false;
+    trace("loop -> " + std::to_string(ret));
+    ctx.looping = false;
+    observe_pre();
+    reconcile_unobserved(false);
+    if (!ok()) return;
+    if (loop_started_pending) { loop_started_pending = false; notify(M_PS_CTX_STARTED, nullptr, false); }
+    if (!ctx.quit) fail("C03.3", "m_ctx_loop returned " + std::to_string(ret) + " although no module requested quit and the driver module is still RUNNING");
+    else if (ret != ctx.quit_code) fail("C03.3", "m_ctx_loop returned " + std::to_string(ret) + ", expected the requested quit code " + std::to_string(ctx.quit_code));
+    if (ok()) loop_end_obligations();
+    ctx.stopping = false; ctx.quit = false; loop_quit_pending = false;
+    for (auto &i : insts) if (i.registered && i.state == M_MOD_PAUSED) make_mailbox_optional(&i);
+    // retire the driver
+    if (ok() && driver->h) {
+        int prev = driver->state;
+        driver->registered = false; ctx.registered--;
+        driver->fds.clear();
+        model_stop(driver, true, prev);
+        int r = m_mod_deregister(&driver->h);
+        observe_pre();
+        if (r != 0) fail("C01.1", "deregistering the driver module returned " + std::to_string(r));
+        driver->h = nullptr;
+    }
+    harness_closing = true; close(drv_fd); harness_closing = false; drv_fd = -1;
+    driver = nullptr;
+    probe("loop");
+}
+
 void Exec::close_harness_fds() {
     harness_closing = true;
     // a descriptor registered without auto-close (or never registered) must still be open and still be the same pipe (C20.2)
@@ -397,7 +471,10 @@ rt::Verdict Exec::run() {
     fds_before = open_fds();
     track::st().on_free = payload_free_hook;
     t_start = now();
-    for (size_t i = 0; i < P.ops.size() && ok(); i++) { step = (int)i; do_op(P.ops[i], true); }
+    for (size_t i = 0; i < P.ops.size() && ok(); i++) {
+        step = (int)i; do_op(P.ops[i], true);
+        if (loop_next_op > i + 1) { i = loop_next_op - 1; loop_next_op = 0; } // the driver module executed these inside the blocking loop
+    }
     if (ok()) epilogue();
     // classification
     nt["C01"] = nt_c01_accept && nt_c01_reject && P.nmods >= 2;
